@@ -15,3 +15,4 @@ def check(repo, rep, tier):
     rep.run(rd.rule_no_read_yield_write, em, rep, 'C14.L2', sm)
     rep.run(rd.rule_remove_by_identity, em, rep, 'C14.L3', sm)
     rep.run(rx.rule_facts_immutable, em, rep, 'C14.L4')
+    rep.run(rx.rule_store_shadows_follow, em, rep, 'C14.L5')
